@@ -138,9 +138,30 @@ func c14Renderings(sec string, quick bool) map[string]string {
 	}
 	if b, err := s.MarshalText(); true {
 		out["marshaltext"] = fmt.Sprintf("%q %v", b, err)
+		// the caller of a TextMarshaler owns the returned bytes: it reuses them for something else (here: the secret) ...
+		b = append(b[:0], sec...)
+		_ = b
+		// ... and every later rendering must still be the marker
+		b2, err2 := s.MarshalText()
+		out["marshaltext:after-caller-reused-the-bytes"] = fmt.Sprintf("%q %v", b2, err2)
+		if jb, err := json.Marshal(s); err == nil {
+			out["json:after-caller-reused-the-bytes"] = string(jb)
+		}
+		for i := range b2 {
+			b2[i] = 0
+		}
 	}
 	if b, err := s.MarshalBinary(); true {
 		out["marshalbinary"] = fmt.Sprintf("%q %v", b, err)
+		b = append(b[:0], sec...)
+		_ = b
+		b2, err2 := s.MarshalBinary()
+		out["marshalbinary:after-caller-reused-the-bytes"] = fmt.Sprintf("%q %v", b2, err2)
+		for i := range b2 {
+			b2[i] = 0
+		}
+		b3, err3 := s.MarshalText()
+		out["marshaltext:after-caller-wiped-the-bytes"] = fmt.Sprintf("%q %v", b3, err3)
 	}
 	out["string()"] = s.String()
 	out["gostring()"] = s.GoString()
@@ -194,23 +215,104 @@ func c14Renderings(sec string, quick bool) map[string]string {
 	return out
 }
 
-// the explicit conversion still returns the secret and unmarshalling stores it unchanged
-func c14Positive(sec string) string {
+// ---- unmarshal targets: every way a configuration struct can hold an opaque value
+type C14UPlain struct {
+	Token configopaque.String `mapstructure:"token"`
+	Other string              `mapstructure:"other"`
+}
+
+// the same, but the struct has unmarshal logic of its own (confmap.Unmarshaler), as many component configurations do
+type C14UOwn struct {
+	Token configopaque.String `mapstructure:"token"`
+	Other string              `mapstructure:"other"`
+}
+
+func (u *C14UOwn) Unmarshal(c *confmap.Conf) error { return c.Unmarshal(u, confmap.WithIgnoreUnused()) }
+
+// outer structs WITH unmarshal logic of their own, embedding (squash) a plain struct / a struct with its own Unmarshal
+type C14UOuterOwnPlain struct {
+	C14UPlain `mapstructure:",squash"`
+	Name      string `mapstructure:"name"`
+}
+
+func (o *C14UOuterOwnPlain) Unmarshal(c *confmap.Conf) error { return c.Unmarshal(o) }
+
+type C14UOuterOwnOwn struct {
+	C14UOwn `mapstructure:",squash"`
+	Name    string `mapstructure:"name"`
+}
+
+func (o *C14UOuterOwnOwn) Unmarshal(c *confmap.Conf) error { return c.Unmarshal(o) }
+
+type c14UTargets struct {
+	OuterOwnPlain C14UOuterOwnPlain `mapstructure:"outer_own_plain"`
+	OuterOwnOwn   C14UOuterOwnOwn   `mapstructure:"outer_own_own"`
+	S      configopaque.String            `mapstructure:"s"`
+	P      *configopaque.String           `mapstructure:"p"`
+	M      map[string]configopaque.String `mapstructure:"m"`
+	L      []configopaque.String          `mapstructure:"l"`
+	Nested C14UPlain                      `mapstructure:"nested"`
+	NPtr   *C14UPlain                     `mapstructure:"nptr"`
+	Own    C14UOwn                        `mapstructure:"own"`
+	Squash struct {
+		C14UPlain `mapstructure:",squash"`
+		Name      string `mapstructure:"name"`
+	} `mapstructure:"squash"`
+	SquashOwn struct {
+		C14UOwn `mapstructure:",squash"`
+		Name    string `mapstructure:"name"`
+	} `mapstructure:"squash_own"`
+}
+
+// the explicit conversion still returns the secret and unmarshalling stores it unchanged; one entry per target shape
+func c14PositiveAll(sec string) map[string]string {
+	out := map[string]string{}
 	s := configopaque.String(sec)
 	if string(s) != sec {
-		return "explicit conversion does not return the secret"
+		out["conversion"] = "explicit conversion does not return the secret"
 	}
-	var tgt struct {
-		S configopaque.String            `mapstructure:"s"`
-		M map[string]configopaque.String `mapstructure:"m"`
+	one := map[string]any{"token": sec, "other": "x"}
+	in := map[string]any{
+		"s": sec, "p": sec, "m": map[string]any{"h": sec}, "l": []any{sec, sec},
+		"nested": one, "nptr": one, "own": one,
+		"squash":     map[string]any{"token": sec, "other": "x", "name": "n"},
+		"squash_own": map[string]any{"token": sec, "other": "x", "name": "n"},
+		"outer_own_plain": map[string]any{"token": sec, "other": "x", "name": "n"},
+		"outer_own_own":   map[string]any{"token": sec, "other": "x", "name": "n"},
 	}
-	if err := confmap.NewFromStringMap(map[string]any{"s": sec, "m": map[string]any{"h": sec}}).Unmarshal(&tgt); err != nil {
-		return "unmarshal failed: " + err.Error()
+	var tgt c14UTargets
+	if err := confmap.NewFromStringMap(in).Unmarshal(&tgt); err != nil {
+		out["unmarshal"] = "unmarshal failed: " + err.Error()
+		return out
 	}
-	if string(tgt.S) != sec || string(tgt.M["h"]) != sec {
-		return fmt.Sprintf("unmarshal stored %q / %q instead of %q", string(tgt.S), string(tgt.M["h"]), sec)
+	got := map[string]string{
+		"field": string(tgt.S), "map-value": string(tgt.M["h"]), "nested-struct": string(tgt.Nested.Token),
+		"struct-with-own-unmarshal": string(tgt.Own.Token), "squashed-embedded-struct": string(tgt.Squash.Token),
+		"squashed-embedded-struct-with-own-unmarshal": string(tgt.SquashOwn.Token),
+		"struct-with-own-unmarshal-embedding-a-plain-struct":              string(tgt.OuterOwnPlain.Token),
+		"struct-with-own-unmarshal-embedding-a-struct-with-own-unmarshal": string(tgt.OuterOwnOwn.Token),
 	}
-	return ""
+	if tgt.P != nil {
+		got["pointer"] = string(*tgt.P)
+	} else {
+		got["pointer"] = "<nil>"
+	}
+	if len(tgt.L) == 2 {
+		got["slice"] = string(tgt.L[1])
+	} else {
+		got["slice"] = fmt.Sprintf("<%d elements>", len(tgt.L))
+	}
+	if tgt.NPtr != nil {
+		got["pointer-to-nested-struct"] = string(tgt.NPtr.Token)
+	} else {
+		got["pointer-to-nested-struct"] = "<nil>"
+	}
+	for k, v := range got {
+		if v != sec {
+			out[k] = fmt.Sprintf("unmarshalling into a %s stored %q instead of the secret %q", k, c14Trunc(v), c14Trunc(sec))
+		}
+	}
+	return out
 }
 
 func c14PathClass(k string) string {
@@ -230,6 +332,16 @@ func c14PathClass(k string) string {
 		return p[0] + ":" + p[1]
 	}
 	return p[0]
+}
+
+// c14MarkerPath: renderings that the statement requires to be the fixed marker
+func c14MarkerPath(k string) bool {
+	for _, p := range []string{"marshaltext", "marshalbinary", "json:", "yaml:", "string()", "gostring()", "confmap:"} {
+		if strings.HasPrefix(k, p) {
+			return true
+		}
+	}
+	return false
 }
 
 func c14Trunc(s string) string {
@@ -273,6 +385,9 @@ func TestVerif(t *testing.T) {
 				bad = fmt.Sprintf("rendering depends on the secret: path=%s secret=%q -> %q (another secret -> %q)", k, c14Trunc(sec), c14Trunc(v), c14Trunc(base[k]))
 			} else if sec == "s3cr3t" && strings.Contains(v, sec) {
 				bad = fmt.Sprintf("secret appears verbatim: path=%s -> %q", k, c14Trunc(v))
+			} else if c14MarkerPath(k) && !strings.Contains(v, "[REDACTED]") && !strings.HasPrefix(v, "ERR ") {
+				// "All of these render the fixed redaction marker" (marshalling paths and the standard string conversions)
+				bad = fmt.Sprintf("the rendering is not the redaction marker: path=%s -> %q", k, c14Trunc(v))
 			}
 			if bad != "" {
 				ctx.Violate("leak:"+c14PathClass(k), bad, c14Case{sec, k})
@@ -287,9 +402,16 @@ func TestVerif(t *testing.T) {
 		}
 		if onlyPath == "" || onlyPath == "positive" {
 			ctx.R.Evals++
-			if p := c14Positive(sec); p != "" {
-				ctx.Violate("conversion-or-unmarshal", p+fmt.Sprintf(" (secret %q)", c14Trunc(sec)), c14Case{sec, "positive"})
-			} else {
+			bad := c14PositiveAll(sec)
+			var ks []string
+			for k := range bad {
+				ks = append(ks, k)
+			}
+			sort.Strings(ks)
+			for _, k := range ks {
+				ctx.Violate("conversion-or-unmarshal:"+k, bad[k], c14Case{sec, "positive"})
+			}
+			if len(bad) == 0 {
 				ctx.R.Traces++
 			}
 		}
